@@ -365,13 +365,105 @@ class Prog:
 
     def func(self, qual):
         if qual not in self.funcs:
+            f = self._by_role(qual)
+            if isinstance(f, Func):
+                return f
             raise AnalysisError("function vanished: %s" % qual)
         return self.funcs[qual]
 
     def cls(self, qual):
         if qual not in self.classes:
+            c = self._by_role(qual)
+            if isinstance(c, Cls):
+                return c
             raise AnalysisError("class vanished: %s" % qual)
         return self.classes[qual]
+
+    # ------------------------------------------------------------------ private names, found by what they do
+    def _by_role(self, qual):
+        """The rules name a handful of *private* classes and functions (exceptions._Error, cli._Outputter, ...).  None of them is
+        part of the interface, so a maintainer may rename them; when the name is gone the entity is looked up by its role -- the
+        one structural fact that made the rules interested in it.  Public names are never re-resolved."""
+        cache = self.__dict__.setdefault("_role_cache", {})
+        if qual not in cache:
+            cache[qual] = None
+            try:
+                cache[qual] = self._resolve_role(qual)
+            except (KeyError, IndexError, AttributeError, AnalysisError):
+                cache[qual] = None
+        return cache[qual]
+
+    def _classes_named_in(self, func, modname):
+        """package classes of module `modname` referred to by name in func's body, in source order"""
+        out = []
+        for n in sorted((x for x in walk_body(func) if isinstance(x, ast.Name)), key=lambda x: (x.lineno, x.col_offset)):
+            r = self.resolve_name(func.mod, n.id, func)
+            if isinstance(r, Cls) and r.mod.name == modname and r not in out:
+                out.append(r)
+        return out
+
+    def _resolve_role(self, qual):
+        if qual == "exceptions._Error":
+            # the common package base of ValidationError and SchemaError
+            ve, se = self.classes["exceptions.ValidationError"], self.classes["exceptions.SchemaError"]
+            def bases(c):
+                return [b for b in (self.resolve_expr(c.mod, x, None) for x in c.node.bases) if isinstance(b, Cls)]
+            common = [b for b in bases(ve) if b in bases(se)]
+            return common[0] if len(common) == 1 else None
+        if qual.startswith("exceptions._Error."):
+            base = self.cls("exceptions._Error")
+            return base.methods.get(qual.split(".")[-1])
+        if qual == "cli._Outputter":
+            # the one class of cli.py that run() names (it builds its reporter through it)
+            cs = self._classes_named_in(self.funcs["cli.run"], "cli")
+            cs = [c for c in cs if not any(norm(b).endswith("Exception") or norm(b).endswith("Error") for b in c.node.bases)]
+            return cs[0] if len(cs) == 1 else None
+        if qual in ("cli._PlainFormatter", "cli._PrettyFormatter"):
+            # the class constructed under the comparison of the output option with "plain" / "pretty"
+            want = "plain" if "Plain" in qual else "pretty"
+            outp = self.cls("cli._Outputter")
+            for m in outp.methods.values():
+                for n in walk_body(m):
+                    if isinstance(n, ast.If) and any(isinstance(x, ast.Constant) and x.value == want for x in ast.walk(n.test)):
+                        for st in n.body:
+                            for x in ast.walk(st):
+                                if isinstance(x, ast.Name):
+                                    r = self.resolve_name(m.mod, x.id, m)
+                                    if isinstance(r, Cls) and r.mod.name == "cli":
+                                        return r
+            return None
+        if qual == "cli._validate_instance":
+            # the module-level function of cli.py that asks a validator for its errors
+            cands = [f for f in self.funcs.values() if f.mod.name == "cli" and f.cls is None and f.outer is None
+                     and any(isinstance(n, ast.Attribute) and n.attr == "iter_errors" for n in walk_body(f))]
+            return cands[0] if len(cands) == 1 else None
+        if qual == "cli._CannotLoadFile":
+            cands = [c for c in self.classes.values() if c.mod.name == "cli" and any(norm(b) == "Exception" for b in c.node.bases)]
+            return cands[0] if len(cands) == 1 else None
+        if qual == "_format._checks_drafts":
+            # the function of _format.py applied (called, as a decorator factory) to the built-in checkers
+            m = self.mods["_format"]
+            count = {}
+            for st in m.tree.body:
+                if isinstance(st, ast.FunctionDef):
+                    for d in st.decorator_list:
+                        if isinstance(d, ast.Call) and isinstance(d.func, ast.Name):
+                            count[d.func.id] = count.get(d.func.id, 0) + 1
+            best = sorted(count.items(), key=lambda kv: -kv[1])
+            if best and best[0][1] >= 5:
+                return self.funcs.get("_format.%s" % best[0][0])
+            return None
+        if qual.startswith("_format._checks_drafts."):
+            outer = self.func("_format._checks_drafts")
+            inner = [x for x in outer.nested.values() if isinstance(x, Func)]
+            return inner[0] if len(inner) == 1 else None
+        if qual == "validators.validates._validates":
+            inner = [x for x in self.funcs["validators.validates"].nested.values() if isinstance(x, Func)]
+            return inner[0] if len(inner) == 1 else None
+        if qual == "_format.FormatChecker.checks._checks":
+            inner = [x for x in self.classes["_format.FormatChecker"].methods["checks"].nested.values() if isinstance(x, Func)]
+            return inner[0] if len(inner) == 1 else None
+        return None
 
     def find_func(self, name, mod=None):
         """All functions whose last qualname component is `name`."""
